@@ -26,6 +26,7 @@ import (
 	"github.com/spf13/viper"
 
 	beacon "github.com/oasisprotocol/oasis-core/go/beacon/api"
+	"github.com/oasisprotocol/oasis-core/go/common"
 	"github.com/oasisprotocol/oasis-core/go/common/cbor"
 	"github.com/oasisprotocol/oasis-core/go/common/crypto/hash"
 	"github.com/oasisprotocol/oasis-core/go/common/crypto/signature"
@@ -53,6 +54,7 @@ import (
 	governance "github.com/oasisprotocol/oasis-core/go/governance/api"
 	registry "github.com/oasisprotocol/oasis-core/go/registry/api"
 	roothash "github.com/oasisprotocol/oasis-core/go/roothash/api"
+	"github.com/oasisprotocol/oasis-core/go/roothash/api/commitment"
 	scheduler "github.com/oasisprotocol/oasis-core/go/scheduler/api"
 	staking "github.com/oasisprotocol/oasis-core/go/staking/api"
 	"github.com/oasisprotocol/oasis-core/go/storage/mkvs"
@@ -70,6 +72,7 @@ type cnCfg struct {
 	ExtraNodes    int    `json:"extra_nodes"`  // entity 0 runs this many additional validator nodes
 	TiedStake     bool   `json:"tied_stake"`   // every validator entity starts with the same escrow
 	TinyStake     bool   `json:"tiny_stake"`   // thresholds of 1-2 base units, escrows at / just below / just above them and around one voting-power unit
+	Debond        int64  `json:"debond"`       // staking DebondingInterval
 	MinTransact   int64  `json:"min_transact"` // staking MinTransactBalance
 	VRF           bool   `json:"vrf"`          // VRF beacon backend (the production one) instead of the insecure test backend
 	VRFThreshold  uint64 `json:"vrf_threshold"`
@@ -107,6 +110,12 @@ type cnNet struct {
 }
 
 func q(n uint64) quantity.Quantity { return *quantity.NewFromUint64(n) }
+
+// cnNoNotify stands for the node's executor-commitment notifier (the roothash application hands commitments seen at mempool
+// check to it; a full node always provides one).
+type cnNoNotify struct{}
+
+func (cnNoNotify) DeliverExecutorCommitment(common.Namespace, *commitment.ExecutorCommitment) {}
 
 // detRand is a deterministic reader for key generation.
 type detRand struct{ r *rand.Rand }
@@ -233,7 +242,7 @@ func (n *cnNet) buildGenesis() error {
 	genesisTime := time.Unix(1_700_000_000, 0).UTC()
 	stk := staking.Genesis{
 		Parameters: staking.ConsensusParameters{
-			DebondingInterval: 1,
+			DebondingInterval: beacon.EpochTime(cfg.Debond),
 			Thresholds:        stakeThresholds(cfg),
 			Slashing: map[staking.SlashReason]staking.Slash{
 				staking.SlashConsensusEquivocation: {Amount: q(40), FreezeInterval: 1},
@@ -508,7 +517,7 @@ func (r *cnReplica) start(fresh bool) error {
 		governanceApp.New(state, md),
 		keymanagerApp.New(state),
 		registryApp.New(state, md),
-		roothashApp.New(state, md, nil),
+		roothashApp.New(state, md, cnNoNotify{}),
 		schedulerApp.New(state, md),
 		stk,
 		vaultApp.New(state, md),
